@@ -1218,6 +1218,13 @@ for _t in ('HashMap', 'IndexMap', 'BTreeMap'):
     M['<%s as Index>::index' % _t] = lambda it, c, a: _map_index(it, a)
 
 
+for _t in ('HashSet', 'IndexSet', 'BTreeSet'):
+    # sets are maps to unit (see the collect model); iteration in insertion order, as IndexSet does
+    M['%s::iter' % _t] = lambda it, c, a: PyIter(iter([RefV([k], 0) for k, _ in list(deref(a[0]).kv)]))
+    M['%s::len' % _t] = lambda it, c, a: IntV(len(deref(a[0]).kv), 64, 0)
+    M['%s::is_empty' % _t] = lambda it, c, a: BoolV(len(deref(a[0]).kv) == 0)
+
+
 def _map_index(it, a):
     mp = deref(a[0]); j = _map_find(it, mp, a[1])
     if j is None:
